@@ -209,4 +209,15 @@ Definition entry_points_cover_source : bool :=
   && forallb (fun c => known_entry (fst (fst c))) write_calls
   && forallb known_entry overwrite_functions
   && forallb (fun e => match snd e with KForward t => known_entry t | _ => true end) entry_points.
+
+(* ---------- comparison of observed trees ---------- *)
+(* the converters' models carry the parts of the metadata that the store-side code never looks at (axis type / unit, version, related
+   objects, extra) in opaque tokens of their own convention (Ctc.v / TrackMate.v, tied in C15 / C16): entry-point histories compare the
+   trees with those tokens blanked on both sides *)
+Definition zero_md (m : smeta) : smeta :=
+  mkmd (md_directed m) (option_map (map (fun ax => mkax (ax_name ax) (ax_min ax) (ax_max ax) 0%Z)) (md_axes m))
+       (md_nprops m) (md_eprops m) 0%Z.
+Definition zero_aval (v : aval) : aval := match v with AGeff (Some m) => AGeff (Some (zero_md m)) | x => x end.
+Definition zero_tok (t : option znode) : option znode :=
+  match t with Some (ZG a ch) => Some (ZG (map (fun kv => (fst kv, zero_aval (snd kv))) a) ch) | x => x end.
 Close Scope m_scope.
